@@ -44,7 +44,18 @@ func main() {
 	goarch := flag.String("goarch", "", "GOARCH for the analysed configuration")
 	noEvidence := flag.Bool("no-evidence", false, "do not write evidence/replay files (self-test runs)")
 	list := flag.Bool("list", false, "print every obligation")
+	describe := flag.Bool("describe", false, "print the rule sets' descriptions (explanation, not decided, assumptions) as JSON and exit")
 	flag.Parse()
+
+	if *describe {
+		out := map[string]map[string]any{}
+		for id, rs := range rules.Registry {
+			out[id] = map[string]any{"explanation": rs.Explanation, "not_decided": rs.NotDecided, "assumptions": rs.Assumptions}
+		}
+		b, _ := json.MarshalIndent(out, "", " ")
+		fmt.Println(string(b))
+		return
+	}
 
 	if *replay != "" {
 		os.Exit(doReplay(*replay))
